@@ -114,6 +114,32 @@ def classify(rc, err):
     return None
 
 
+BIGNUM = re.compile(rb'(?<![\w.])(0[xX][0-9a-fA-F]{1,40}|[0-9]{1,40})([uUlL]{0,3})(?![\w.])')
+
+
+def cost_proportional(e, args, data, env, aslimit):
+    """Decides whether a CPU-limit ending is only cost proportional to a numeric constant of the input: an automatic
+    `char s[0x80000000] = "abc"` is lowered to 2^28 zeroing stores (gigabytes of correct output) - slow, but the
+    compiler does terminate, so C19 is not violated.  Every integer constant >= 2^20 is replaced by 2^12, 2^14 and
+    2^16; the ending counts as proportional cost iff all three variants end with status 0 and no signature and the
+    output grows with the constant (at least 4x from the first to the last).  Anything else stays a timeout."""
+    def big(m):
+        try:
+            return int(m.group(1), 0 if m.group(1)[:2].lower() == b'0x' else 10) >= 1 << 20
+        except ValueError:
+            return False
+    if not any(big(m) for m in BIGNUM.finditer(data)):
+        return False
+    lens = []
+    for k in (12, 14, 16):
+        d2 = BIGNUM.sub(lambda m: (str(1 << k).encode() + m.group(2)) if big(m) else m.group(0), data)
+        rc, out, err = run_limited([e] + args, input=d2, timeout=600, cpu=30, env=env, cap=256 << 20, aslimit=aslimit)
+        if rc != 0 or classify(rc, err):
+            return False
+        lens.append(len(out))
+    return lens[0] < lens[1] < lens[2] and lens[2] >= 4 * lens[0]
+
+
 def mutate(rng, data):
     toks = TOKRE.findall(data)
     if not toks:
@@ -238,6 +264,10 @@ def run(ctx):
             rc, out, err = run_limited([e] + args, input=data, timeout=600, cpu=30 if big or kind.startswith('deep') else 10, env=env, cap=1 << 20,
                                        aslimit=not (use_san and san_exe))
             sig = classify(rc, err)
+            if sig == 'timeout' and cost_proportional(e, args, data, env, not (use_san and san_exe)):
+                sig = None
+                rc = 0
+                kind = 'proportional-cost:' + kind
             if os.environ.get('C19_ONLY'):
                 ctx.log('case %s start+%.2f took %.2f rc=%d exe=%s' % (kind, t0 - ctx.t0, _t.time() - t0, rc, os.path.basename(os.path.dirname(e))))
             if _t.time() - t0 > 5:
@@ -248,6 +278,9 @@ def run(ctx):
             stats['inputs'] += 1
             k0 = kind.split(':')[0]
             stats['by_kind'][k0] = stats['by_kind'].get(k0, 0) + 1
+            if k0 == 'proportional-cost':
+                stats['proportional_cost_endings'] = stats.get('proportional_cost_endings', 0) + 1
+                k0 = kind.split(':')[1]
             kind = k0 if k0 in ('boundary', 'boundary-E', 'count') else kind
             end = sig.split(':')[0] if sig else 'exit%d' % rc
             stats['endings'][end] = stats['endings'].get(end, 0) + 1
